@@ -154,4 +154,11 @@ funclit 1 in New(h host.Host, options ...Option) (*DHT, error)
 funclit 2 in New(h host.Host, options ...Option) (*DHT, error)
   props C15
   ensures [lan-drops-loopback-only] result == !manet.IsIPLoopback(a)
+
+# two errors are reported as one only when they are the same error or one of them
+# merely says "no peers in the routing table"; otherwise both are kept
+func combineErrors(erra, errb error) error
+  props C15
+  modifies nothing
+  ensures [same-or-lookup-failure-collapses] imp(erra == errb, result == erra) && imp(erra != errb && erra == kb.ErrLookupFailure, result == errb) && imp(erra != errb && erra != kb.ErrLookupFailure && errb == kb.ErrLookupFailure, result == erra)
 @*/
